@@ -658,6 +658,16 @@ func (i *interpreter) jsonUnmarshal(fr *frame, data []byte, target iface, useNum
 
 func (i *interpreter) jsonDec(fr *frame, raw []byte, p *value, t types.Type, useNumber, quoted bool) error {
 	isNull := string(raw) == "null"
+	if _, isIface := t.Underlying().(*types.Interface); isIface {
+		// an interface holding a non-nil pointer is decoded through that pointer (encoding/json's indirect)
+		if cur, ok := (*p).(iface); ok && cur.t != nil && !isNull {
+			if pt, isPtr := cur.t.Underlying().(*types.Pointer); isPtr {
+				if pv, ok := cur.v.(*value); ok && pv != nil {
+					return i.jsonDec(fr, raw, pv, pt.Elem(), useNumber, quoted)
+				}
+			}
+		}
+	}
 	// Unmarshaler on *T
 	ptrT := types.NewPointer(t)
 	if len(raw) > 0 && raw[0] == '"' && bytes.Contains(raw, []byte("symgo:")) {
@@ -759,14 +769,6 @@ func (i *interpreter) jsonDec(fr *frame, raw []byte, p *value, t types.Type, use
 		}
 		return i.jsonDec(fr, raw, cur, u.Elem(), useNumber, quoted)
 	case *types.Interface:
-		// an interface holding a non-nil pointer is decoded through that pointer (encoding/json's indirect)
-		if cur, ok := (*p).(iface); ok && cur.t != nil && !isNull {
-			if pt, isPtr := cur.t.Underlying().(*types.Pointer); isPtr {
-				if pv, ok := cur.v.(*value); ok && pv != nil {
-					return i.jsonDec(fr, raw, pv, pt.Elem(), useNumber, quoted)
-				}
-			}
-		}
 		if isNull {
 			*p = iface{}
 			return nil
